@@ -216,13 +216,26 @@ fn board_chunk(rng: &mut Rng, events: usize, out: &mut dyn Write) {
                     ev.insert("which".into(), json!(names));
                     observe(&b, &mut ev);
                 } else {
-                    let i = rng.below(64);
+                    let pj = proj(&b);
+                    let occupied: Vec<usize> = (0..64).filter(|i| pj.sq[*i] != b'.' && pj.sq[*i] != b'K' && pj.sq[*i] != b'k').collect();
+                    let targeted = !occupied.is_empty() && rng.chance(1, 2);
+                    let i = if targeted { occupied[rng.below(occupied.len())] } else { rng.below(64) };
                     let sq = Square::new(i as u8);
-                    let here = proj(&b).sq[i];
+                    let here = pj.sq[i];
                     if here == b'K' || here == b'k' {
                         continue;
                     }
-                    let man: u8 = if rng.chance(1, 3) { b'.' } else { b"PNBRQpnbrq"[rng.below(10)] };
+                    // on an occupied square: the same kind in the other colour, or another kind in the same colour
+                    let man: u8 = if targeted && rng.chance(1, 2) {
+                        swap_case(here)
+                    } else if targeted {
+                        let alt = b"NBRQ"[rng.below(4)];
+                        if here.is_ascii_uppercase() { alt } else { alt.to_ascii_lowercase() }
+                    } else if rng.chance(1, 3) {
+                        b'.'
+                    } else {
+                        b"PNBRQpnbrq"[rng.below(10)]
+                    };
                     if (man == b'P' || man == b'p') && (i < 8 || i >= 56) {
                         continue;
                     }
@@ -740,7 +753,9 @@ fn san_guess(rng: &mut Rng, b: &Board, m: ChessMove, all: &Vec<ChessMove>) -> St
     text
 }
 
-const NOISE: [&str; 24] = ["a", "h", "1", "8", "x", "N", "K", "Q", "O", "-", "+", "#", "=", " ", "e.p.", "0", "9", "i", "é", "♞", "\u{1F600}", "\u{0}", "ß", "."];
+// includes non-ASCII characters whose low byte looks like a file letter or a rank digit (U+0131, U+0161, U+0165, U+0138)
+const NOISE: [&str; 30] = ["a", "h", "1", "8", "x", "N", "K", "Q", "O", "-", "+", "#", "=", " ", "e.p.", "0", "9", "i", "é", "♞", "\u{1F600}", "\u{0}", "ß", ".",
+    "\u{0131}", "\u{0161}", "\u{0165}", "\u{0138}", "\t", "\u{2003}"];
 
 fn mutate(rng: &mut Rng, s: &str) -> String {
     let chars: Vec<char> = s.chars().collect();
@@ -812,7 +827,15 @@ fn text_chunk(rng: &mut Rng, events: usize, out: &mut dyn Write) {
                 Err(_) => ("panic", -1),
             };
             writeln!(out, "{}", json!({"event": "UciSquare", "text": stext, "st": sst, "sqi": sqi})).unwrap();
-            n += 2;
+            // the deprecated String-taking variant
+            #[allow(deprecated)]
+            let (ost, osqi) = match std::panic::catch_unwind(|| Square::from_string(stext.clone())) {
+                Ok(Some(s)) => ("ok", s.to_index() as i64),
+                Ok(None) => ("err", -1),
+                Err(_) => ("panic", -1),
+            };
+            writeln!(out, "{}", json!({"event": "UciSquare", "text": stext, "st": ost, "sqi": osqi, "via": "from_string"})).unwrap();
+            n += 3;
         }
         // ---- SAN against positions of a playout ----
         let textfen = if rng.chance(1, 3) { ITER_FENS[rng.below(ITER_FENS.len())] } else { START_FENS[rng.below(START_FENS.len())] };
@@ -947,11 +970,32 @@ fn fen_of(sq: &[u8; 64], stm: u8, cr: u8, epfile: i64, rng: &mut Rng) -> String 
     format!("{} {} {}", p.describe(), rng.below(60), 1 + rng.below(90))
 }
 
-const FEN_NOISE: [&str; 22] = ["/", "8", "1", "9", "0", "k", "K", "p", "P", "q", " ", "w", "b", "-", "KQkq", "e3", "x", "é", "♚", "\u{1F600}", "\t", "//"];
+const FEN_NOISE: [&str; 28] = ["/", "8", "1", "9", "0", "k", "K", "p", "P", "q", " ", "w", "b", "-", "KQkq", "e3", "x", "é", "♚", "\u{1F600}", "\t", "//",
+    "\u{FF18}", "\u{0668}", "\u{00B2}", "\u{00BD}", "\u{2167}", "\u{0661}"];
+
+/// Boundary positions for the move list (16 mobile men, two en-passant capturers, both castlings): the most entries
+/// a legal position can put into the generator's fixed-size list.
+const BOUNDARY_FENS: [&str; 4] = [
+    "4k3/8/8/1NPpP1N1/8/1PNBB1P1/P2Q1P1P/R3K2R w KQ d6 0 1",
+    "r3k2r/p2q1p1p/1pnbb1p1/8/1npPp1n1/8/8/4K3 b kq d3 0 1",
+    "4k3/8/8/1NPpP1N1/8/1PNBB1P1/P2Q1P1P/R3K2R w KQ - 0 1",
+    "r3k2r/pppppppp/8/8/8/8/PPPPPPPP/R3K2R w KQkq - 0 1",
+];
 
 fn validate_chunk(rng: &mut Rng, events: usize, out: &mut dyn Write, progress: &str) {
     let mut n = 0;
     let letters = b"PNBRQKpnbrqk";
+    for text in BOUNDARY_FENS.iter() {
+        let mut ev = Map::new();
+        ev.insert("event".into(), json!("Parse"));
+        ev.insert("text".into(), json!(text));
+        ev.insert("wellformed".into(), json!(false));
+        let t2 = text.to_string();
+        let r = std::panic::catch_unwind(move || Board::from_str(&t2));
+        log_outcome(&mut ev, r, progress, &json!({"text": text}));
+        writeln!(out, "{}", Value::Object(ev)).unwrap();
+        n += 1;
+    }
     while n < events {
         // a base position from a playout
         let text = START_FENS[rng.below(START_FENS.len())];
@@ -976,7 +1020,7 @@ fn validate_chunk(rng: &mut Rng, events: usize, out: &mut dyn Write, progress: &
             // mutations (several may apply); about one in four inputs stays a valid position
             let nm = [0, 0, 1, 1, 1, 2, 3, 5][rng.below(8)];
             for _ in 0..nm {
-                match rng.below(12) {
+                match rng.below(13) {
                     0 => {
                         for i in 0..64 {
                             if sq[i] == b'K' || (sq[i] == b'k' && rng.chance(1, 2)) {
@@ -1011,6 +1055,25 @@ fn validate_chunk(rng: &mut Rng, events: usize, out: &mut dyn Write, progress: &
                             sq[i] = letters[rng.below(12)];
                         }
                     }
+                    11 => {
+                        // castling confusion: the ENEMY king on a side's king home square, that side's rooks at home, its own king elsewhere
+                        let white = rng.chance(1, 2);
+                        let (home, ra, rh, own, enemy, rook) = if white { (4usize, 0usize, 7usize, b'K', b'k', b'R') } else { (60, 56, 63, b'k', b'K', b'r') };
+                        for i in 0..64 {
+                            if sq[i] == b'K' || sq[i] == b'k' {
+                                sq[i] = b'.';
+                            }
+                        }
+                        sq[home] = enemy;
+                        sq[ra] = rook;
+                        sq[rh] = rook;
+                        let mut j = rng.below(64);
+                        while j == home || j == ra || j == rh || (j as i32 / 8 - home as i32 / 8).abs() < 3 {
+                            j = rng.below(64);
+                        }
+                        sq[j] = own;
+                        cr = if white { [1u8, 2, 3][rng.below(3)] } else { [4u8, 8, 12][rng.below(3)] };
+                    }
                     10 => {
                         // one colour only gets many queens / knights
                         let l = [b'Q', b'N', b'q', b'n', b'R', b'b'][rng.below(6)];
@@ -1034,8 +1097,36 @@ fn validate_chunk(rng: &mut Rng, events: usize, out: &mut dyn Write, progress: &
                 // the builder as a data structure: getters, indexing, rendering, re-parsing
                 let mut ev = input.as_object().unwrap().clone();
                 ev.insert("event".into(), json!("BuilderState"));
+                let order = rng.below(4);
                 let r = std::panic::catch_unwind(|| {
-                    let bb = builder_of(&sq, stm, cr, epfile);
+                    // the same state reached through different orders of the setter calls
+                    let mut bb = builder_of(&sq, stm, cr, epfile);
+                    let stmc = if stm == b'w' { Color::White } else { Color::Black };
+                    let epf = if epfile >= 0 { Some(File::from_index(epfile as usize)) } else { None };
+                    match order {
+                        1 => {
+                            // en passant first, side to move afterwards (twice, via the other colour)
+                            bb.en_passant(epf);
+                            bb.side_to_move(!stmc);
+                            bb.side_to_move(stmc);
+                        }
+                        2 => {
+                            bb.side_to_move(!stmc);
+                            bb.en_passant(epf);
+                            bb.side_to_move(stmc);
+                        }
+                        3 => {
+                            // through setup()
+                            let mut men = vec![];
+                            for i in 0..64u8 {
+                                if let Some((pc, c)) = letter_piece(sq[i as usize]) {
+                                    men.push((Square::new(i), pc, c));
+                                }
+                            }
+                            bb = BoardBuilder::setup(&men, stmc, castle_rights_of(cr, Color::White), castle_rights_of(cr, Color::Black), epf);
+                        }
+                        _ => {}
+                    }
                     let text = format!("{}", bb);
                     let text2 = match BoardBuilder::from_str(&text) {
                         Ok(b2) => format!("{}", b2),
@@ -1142,8 +1233,26 @@ fn validate_chunk(rng: &mut Rng, events: usize, out: &mut dyn Write, progress: &
 }
 
 // ------------------------------------------------------------------ CacheTable scripts (C19)
+/// A value whose equality and order look at `k` only: `a` tells writes apart that compare equal.
+#[derive(Copy, Clone, Debug)]
+struct CV {
+    k: i64,
+    a: i64,
+}
+impl PartialEq for CV {
+    fn eq(&self, o: &CV) -> bool {
+        self.k == o.k
+    }
+}
+impl PartialOrd for CV {
+    fn partial_cmp(&self, o: &CV) -> Option<std::cmp::Ordering> {
+        self.k.partial_cmp(&o.k)
+    }
+}
+
 fn cache_chunk(rng: &mut Rng, events: usize, out: &mut dyn Write, progress: &str) {
     let mut n = 0;
+    let mut stamp: i64 = 0;
     while n < events {
         // construction: valid and invalid sizes
         let size: usize = match rng.below(10) {
@@ -1157,7 +1266,7 @@ fn cache_chunk(rng: &mut Rng, events: usize, out: &mut dyn Write, progress: &str
             }
         };
         let def = rng.below(5) as i64;
-        let made = std::panic::catch_unwind(|| CacheTable::<i64>::new(size, def));
+        let made = std::panic::catch_unwind(|| CacheTable::<CV>::new(size, CV { k: def, a: 0 }));
         writeln!(out, "{}", json!({"op": "new", "n": size, "def": def, "panicked": made.is_err()})).unwrap();
         n += 1;
         let mut t = match made {
@@ -1174,6 +1283,12 @@ fn cache_chunk(rng: &mut Rng, events: usize, out: &mut dyn Write, progress: &str
                 pool.push(if shift >= 64 { idx } else { (tag.wrapping_shl(shift)) | idx });
             }
         }
+        // hashes that differ from pool members in the upper half of the word only, or in the top bit only
+        for i in 0..pool.len().min(8) {
+            pool.push(pool[i] ^ (1u64 << 32));
+            pool.push(pool[i] ^ (1u64 << 63));
+            pool.push(pool[i] ^ 0xFFFF_FFFF_0000_0000);
+        }
         let ops = 50 + rng.below(400);
         for _ in 0..ops {
             if n >= events {
@@ -1183,31 +1298,34 @@ fn cache_chunk(rng: &mut Rng, events: usize, out: &mut dyn Write, progress: &str
             let idx = h & (size as u64 - 1);
             let tag = if shift == 0 { h } else { h >> shift };
             let v = rng.below(7) as i64;
+            stamp += 1;
+            let val = CV { k: v, a: stamp };
             std::fs::write(progress, format!("size={} hash={}", size, h)).ok();
             match rng.below(3) {
                 0 => {
-                    t.add(h, v);
-                    writeln!(out, "{}", json!({"op": "add", "tag": tag.to_string(), "idx": idx, "v": v})).unwrap();
+                    t.add(h, val);
+                    writeln!(out, "{}", json!({"op": "add", "tag": tag.to_string(), "idx": idx, "v": v, "aux": stamp})).unwrap();
                 }
                 1 => {
                     let x = rng.below(7) as i64;
                     let (pk, px) = [("always", 0), ("never", 0), ("eq", x), ("lt", x), ("ge", x)][rng.below(5)];
-                    let seen = std::cell::Cell::new(-1i64);
-                    t.replace_if(h, v, |c| {
-                        seen.set(c);
+                    let seen = std::cell::Cell::new((-1i64, -1i64));
+                    t.replace_if(h, val, |c| {
+                        seen.set((c.k, c.a));
                         match pk {
                             "always" => true,
                             "never" => false,
-                            "eq" => c == px,
-                            "lt" => c < px,
-                            _ => c >= px,
+                            "eq" => c.k == px,
+                            "lt" => c.k < px,
+                            _ => c.k >= px,
                         }
                     });
-                    writeln!(out, "{}", json!({"op": "replace_if", "tag": tag.to_string(), "idx": idx, "v": v, "pk": pk, "px": px, "called_with": seen.get()})).unwrap();
+                    writeln!(out, "{}", json!({"op": "replace_if", "tag": tag.to_string(), "idx": idx, "v": v, "aux": stamp, "pk": pk, "px": px,
+                                              "called_with": seen.get().0, "called_aux": seen.get().1})).unwrap();
                 }
                 _ => {
                     let g = t.get(h);
-                    writeln!(out, "{}", json!({"op": "get", "tag": tag.to_string(), "idx": idx, "some": g.is_some(), "v": g.unwrap_or(-1)})).unwrap();
+                    writeln!(out, "{}", json!({"op": "get", "tag": tag.to_string(), "idx": idx, "some": g.is_some(), "v": g.map(|x| x.k).unwrap_or(-1), "aux": g.map(|x| x.a).unwrap_or(-1)})).unwrap();
                 }
             }
             std::fs::remove_file(progress).ok();
@@ -1250,6 +1368,31 @@ fn bits_chunk(rng: &mut Rng, events: usize, out: &mut dyn Write) {
         let b = BitBoard::new(y);
         let la = bb_squares(a);
         let lb = bb_squares(b);
+        if rng.chance(1, 5) {
+            // provided Iterator methods (nth / skip / step_by / last / max / min / count / collect)
+            let n_arg = match rng.below(4) { 0 => a.popcnt() as usize, 1 => a.popcnt() as usize + 1, 2 => 0, _ => rng.below(66) };
+            let one = |o: Option<Square>| -> Vec<usize> { o.map(|s| vec![s.to_index()]).unwrap_or_default() };
+            let ev = match rng.below(8) {
+                0 => {
+                    let mut it = a;
+                    let r = it.nth(n_arg);
+                    json!({"op": "adaptor", "what": "nth", "a": la, "n": n_arg, "ret": one(r), "after": bb_squares(it)})
+                }
+                1 => json!({"op": "adaptor", "what": "last", "a": la, "n": 0, "ret": one(a.last())}),
+                2 => json!({"op": "adaptor", "what": "max", "a": la, "n": 0, "ret": one(a.max())}),
+                3 => json!({"op": "adaptor", "what": "min", "a": la, "n": 0, "ret": one(a.min())}),
+                4 => json!({"op": "adaptor", "what": "count", "a": la, "n": 0, "ret": [a.count()]}),
+                5 => json!({"op": "adaptor", "what": "skip", "a": la, "n": n_arg, "ret": a.skip(n_arg).map(|s| s.to_index()).collect::<Vec<_>>()}),
+                6 => {
+                    let k = 1 + n_arg % 9;
+                    json!({"op": "adaptor", "what": "step_by", "a": la, "n": k, "ret": a.step_by(k).map(|s| s.to_index()).collect::<Vec<_>>()})
+                }
+                _ => json!({"op": "adaptor", "what": "collect", "a": la, "n": 0, "ret": a.collect::<Vec<Square>>().iter().map(|s| s.to_index()).collect::<Vec<_>>()}),
+            };
+            writeln!(out, "{}", ev).unwrap();
+            n += 1;
+            continue;
+        }
         match rng.below(9) {
             0 => {
                 let mut f5 = a;
@@ -1295,6 +1438,120 @@ fn bits_chunk(rng: &mut Rng, events: usize, out: &mut dyn Write) {
     }
 }
 
+// ------------------------------------------------------------------ position miner
+// Random placements are cheap; positions in which the outcome hangs on ONE special move are rare.  The miner draws
+// millions of placements, keeps those the library itself shows to be "tight" (at most two legal moves, or none)
+// and in which something special is going on (en-passant state, a pinned man, a promotion, castling rights, a
+// check), and logs them as Reset events.  It proposes; the specification judges (TraceBoard).
+fn mine_chunk(rng: &mut Rng, events: usize, out: &mut dyn Write) {
+    let mut n = 0;
+    let mut tries: u64 = 0;
+    let mut quota = [0usize; 12];
+    let kinds_w = b"PPPNBRQ";
+    let kinds_b = b"pppnbrq";
+    while n < events && tries < 40_000_000 {
+        tries += 1;
+        let mut sq = [b'.'; 64];
+        // kings: one of them often in a corner or on an edge
+        let wk = if rng.chance(1, 2) { [0usize, 7, 56, 63, 3, 4, 60, 24][rng.below(8)] } else { rng.below(64) };
+        let mut bk = rng.below(64);
+        while bk == wk || ((bk as i32 / 8 - wk as i32 / 8).abs() <= 1 && (bk as i32 % 8 - wk as i32 % 8).abs() <= 1) {
+            bk = rng.below(64);
+        }
+        sq[wk] = b'K';
+        sq[bk] = b'k';
+        let men = 2 + rng.below(6);
+        for _ in 0..men {
+            let i = rng.below(64);
+            if sq[i] != b'.' {
+                continue;
+            }
+            let l = if rng.chance(1, 2) { kinds_w[rng.below(7)] } else { kinds_b[rng.below(7)] };
+            if (l == b'P' || l == b'p') && (i < 8 || i >= 56) {
+                continue;
+            }
+            sq[i] = l;
+        }
+        let stm = if rng.chance(1, 2) { b'w' } else { b'b' };
+        // en-passant state where a double push is plausible: pushed pawn on its fourth rank, the two squares behind it
+        // empty, an enemy pawn beside it
+        let mut epfile: i64 = -1;
+        if rng.chance(1, 2) {
+            let (rank, me, them, dir): (usize, u8, u8, i32) = if stm == b'b' { (3, b'P', b'p', -8) } else { (4, b'p', b'P', 8) };
+            for f in 0..8usize {
+                let s = rank * 8 + f;
+                if sq[s] == me
+                    && sq[(s as i32 + dir) as usize] == b'.'
+                    && sq[(s as i32 + 2 * dir) as usize] == b'.'
+                    && ((f > 0 && sq[s - 1] == them) || (f < 7 && sq[s + 1] == them))
+                {
+                    epfile = f as i64;
+                    break;
+                }
+            }
+        }
+        // castling rights when backed
+        let mut cr = 0u8;
+        if sq[4] == b'K' {
+            if sq[7] == b'R' && rng.chance(1, 2) {
+                cr |= 1;
+            }
+            if sq[0] == b'R' && rng.chance(1, 2) {
+                cr |= 2;
+            }
+        }
+        if sq[60] == b'k' {
+            if sq[63] == b'r' && rng.chance(1, 2) {
+                cr |= 4;
+            }
+            if sq[56] == b'r' && rng.chance(1, 2) {
+                cr |= 8;
+            }
+        }
+        let bb = builder_of(&sq, stm, cr, epfile);
+        let b = match Board::try_from(&bb) {
+            Ok(b) => b,
+            Err(_) => continue,
+        };
+        let nmoves = MoveGen::new_legal(&b).len();
+        if nmoves > 2 {
+            continue;
+        }
+        let own = *b.color_combined(b.side_to_move());
+        let seventh = (b.pieces(Piece::Pawn) & own & get_rank(b.side_to_move().to_seventh_rank())) != EMPTY;
+        // quota per class, so that the cheap classes (in check, few moves) do not crowd out the rare ones
+        let class = if b.en_passant().is_some() {
+            if *b.checkers() != EMPTY { 0 } else if nmoves == 0 { 1 } else { 2 }
+        } else if (*b.pinned() & own) != EMPTY {
+            if *b.checkers() != EMPTY { 3 } else if nmoves == 0 { 4 } else { 5 }
+        } else if seventh {
+            6
+        } else if cr != 0 {
+            7
+        } else if *b.checkers() != EMPTY {
+            if nmoves == 0 { 8 } else { 9 }
+        } else if nmoves == 0 {
+            10
+        } else {
+            11
+        };
+        let cap = [events / 8, events / 8, events / 8, events / 10, events / 8, events / 8, events / 10, events / 12, events / 20, events / 20, events / 12, events / 20][class].max(1);
+        if quota[class] >= cap {
+            continue;
+        }
+        quota[class] += 1;
+        let p = proj(&b);
+        let text = format!("{} 0 1", Pos { sq: p.sq, stm: p.stm, cr: p.cr, ep: if epfile >= 0 { (if stm == b'w' { 40 } else { 16 }) + epfile as i8 } else { -1 } }.describe());
+        let mut ev = Map::new();
+        ev.insert("event".into(), json!("Reset"));
+        ev.insert("text".into(), json!(text));
+        ev.insert("mined".into(), json!(true));
+        observe(&b, &mut ev);
+        writeln!(out, "{}", Value::Object(ev)).unwrap();
+        n += 1;
+    }
+}
+
 fn main() {
     let args: Vec<String> = std::env::args().collect();
     if args.len() < 2 {
@@ -1336,29 +1593,39 @@ fn main() {
         std::panic::set_hook(Box::new(|_| {}));
     }
     std::fs::create_dir_all(&outdir).unwrap();
-    for c in 0..chunks {
-        let mut rng = Rng(seed.wrapping_mul(1_000_003).wrapping_add(c as u64 * 7919));
-        let path = format!("{}/{}-{}.ndjson", outdir, mode, c);
-        let mut f = std::io::BufWriter::new(std::fs::File::create(&path).unwrap());
-        match mode.as_str() {
-            "board" => board_chunk(&mut rng, events, &mut f),
-            "iter" => iter_chunk(&mut rng, events, &mut f),
-            "text" => text_chunk(&mut rng, events, &mut f),
-            "bits" => bits_chunk(&mut rng, events, &mut f),
-            "cache" => {
-                let progress = format!("{}/{}-{}.progress", outdir, mode, c);
-                cache_chunk(&mut rng, events, &mut f, &progress);
-            }
-            "validate" => {
-                let progress = format!("{}/{}-{}.progress", outdir, mode, c);
-                validate_chunk(&mut rng, events, &mut f, &progress);
-            }
-            "game" => game_chunk(&mut rng, events, &mut f, false),
-            "claims" => game_chunk(&mut rng, events, &mut f, true),
-            x => {
-                eprintln!("unknown mode {}", x);
-                std::process::exit(2);
-            }
+    // chunks are independent: generate them in parallel
+    let mode_ref = &mode;
+    let outdir_ref = &outdir;
+    std::thread::scope(|sc| {
+        for c in 0..chunks {
+            sc.spawn(move || {
+                let mode = mode_ref.clone();
+                let outdir = outdir_ref.clone();
+                let mut rng = Rng(seed.wrapping_mul(1_000_003).wrapping_add(c as u64 * 7919));
+                let path = format!("{}/{}-{}.ndjson", outdir, mode, c);
+                let mut f = std::io::BufWriter::new(std::fs::File::create(&path).unwrap());
+                match mode.as_str() {
+                    "board" => board_chunk(&mut rng, events, &mut f),
+                    "iter" => iter_chunk(&mut rng, events, &mut f),
+                    "text" => text_chunk(&mut rng, events, &mut f),
+                    "bits" => bits_chunk(&mut rng, events, &mut f),
+                    "mine" => mine_chunk(&mut rng, events, &mut f),
+                    "cache" => {
+                        let progress = format!("{}/{}-{}.progress", outdir, mode, c);
+                        cache_chunk(&mut rng, events, &mut f, &progress);
+                    }
+                    "validate" => {
+                        let progress = format!("{}/{}-{}.progress", outdir, mode, c);
+                        validate_chunk(&mut rng, events, &mut f, &progress);
+                    }
+                    "game" => game_chunk(&mut rng, events, &mut f, false),
+                    "claims" => game_chunk(&mut rng, events, &mut f, true),
+                    x => {
+                        eprintln!("unknown mode {}", x);
+                        std::process::exit(2);
+                    }
+                }
+            });
         }
-    }
+    });
 }
